@@ -7,7 +7,7 @@ ID = 'C06'
 OBLIGATIONS = ['Props/C06.v', 'Props/Tie/recode_tie.v', 'Props/Tie/charge_tie.v']
 RULE = ('random class sequences (N 5..40), every grouping of a sequence asked of ONE object back to back, x groupings: one union split several ways and unsplit,  random subsets of the 20 residues in mixed case / shuffled order / '
         'as list, tuple or string, disjoint and overlapping pairs, complements, the PEDKR and ED/KR groups, empty second '
-        'group, groups containing a non-amino-acid (letter, digit, two-letter string, non-string); plus Omega / Omega '
+        'group, groups containing a non-amino-acid (letter, digit, two-letter string, non-string); plus (also for every two-class pattern of length 5..9, thorough 11) Omega / Omega '
         'sequence / kappa per sequence; non-trivial = distinct (sequence, groups) accepted with both recoded classes present')
 TRUSTED = ['group arguments canonicalised to lists of strings; non-string or non-printable members become the token "??"']
 ASSUMPTIONS = ['swap clause read for disjoint groups (with overlap the first group wins, as in the code)']
@@ -122,9 +122,15 @@ def build(ctx):
         r = '(Some %s)' % cq(v) if st == 'ok' else 'None'
         coq = '(%s, %s, %s, %s)' % (cstr(s), cl(c1), 'None' if c2 is None else '(Some %s)' % cl(c2), r)
         cases.append(Case(coq, d, key=(s, repr(g1), repr(g2)), nontrivial=(st == 'ok' and v != -1)))
-    res2 = pmap(_omega, seqs)
+    # every two-class (PEDKR / other) pattern of length 5..9 (thorough 11), spelled with random members of each class
+    import itertools
+    oseqs = list(seqs)
+    for n in range(5, ctx.pick(9, 11) + 1):
+        for bits in itertools.product('XO', repeat=n):
+            oseqs.append(''.join(rng.choice('PEDKR') if b == 'X' else rng.choice('AGSTQNHLIVMFWYC') for b in bits))
+    res2 = pmap(_omega, oseqs)
     ocases = []
-    for s, (st, v) in zip(seqs, res2):
+    for s, (st, v) in zip(oseqs, res2):
         d = {'sequence': s, 'Omega_OmegaSeq_kappa': [st, v]}
         if st != 'ok' or not (isinstance(v[1], str) and set(v[1]) <= {'X', 'O'}):
             ctx.direct_failures.append(d)
